@@ -73,13 +73,13 @@ class C04(Prop):
             r = rng.random()
             if r < 0.45:
                 m = rng.randint(2, 5)
-                alts = gen.alt_ids(rng, m)
+                alts = gen.alt_ids(rng, m, zero_ok=True)
                 nn = rng.randint(1, 6)
                 orders = gen.strict_orders(rng, alts, nn)
                 planted = None
             else:
                 m = rng.choice([3, 4, 5, 6, 8, 12])
-                alts = gen.alt_ids(rng, m)
+                alts = gen.alt_ids(rng, m, zero_ok=True)
                 seq = sc_walk(rng, alts, rng.randint(1, m * (m - 1) // 2))
                 seq = list(dict.fromkeys(seq))
                 if len(seq) > 16:
